@@ -105,7 +105,9 @@ def integral_float_in_uninterpreted_ifdata(node):
         return False
     if node[0] == b'IfData':
         items, valid = node[2][0], node[2][1] if len(node[2]) > 1 else None
-        if items and not (valid and valid[0]):
+        if isinstance(valid, list):
+            valid = valid[0] if valid else 0
+        if items and not valid:
             for bits in _gifd_floats(items[0], []):
                 try:
                     x = struct.unpack('<d', struct.pack('<Q', bits if isinstance(bits, int) else bits[0]))[0]
@@ -236,8 +238,7 @@ def extra_stage(v, tier, rng, impl):
                                       'stage': 'W (file save cycle: write(path, banner), load(path))'}})
     v.coverage['file_save_cycles'] = len(bcases)
     v.coverage['file_save_cycles_ok'] = n_ok
-    fails = fails[:3] + include_stage(v, tier, rng, impl)
-    return fails[:4]
+    return fails[:3] + include_stage(v, tier, rng, impl)
 
 
 def include_comment_cases():
@@ -276,20 +277,67 @@ def include_stage(v, tier, rng, impl):
     and the text written from that model is the same text (nothing is copied from an include file into the main file)"""
     from checks import inclib
     cases = include_comment_cases() + inclib.gen_split_cases(rng, 25 if tier == 'quick' else 1200)
+    # the same documents, edited through the API before they are saved: new objects of kinds that the include files hold too,
+    # placed by sort_new_items() (between the elements of an include file) or left at the end, or the whole file sorted
+    edited = []
+    for c in cases:
+        # the MODULE that is edited stands in the main file: what is added to a block of an include file is not written
+        # (the block is represented by its directive; include files are never rewritten)
+        mt = c['files'].get(c['main'])
+        if not c.get('flat') or not isinstance(mt, str) or '/begin MODULE' not in mt:
+            continue
+        for variant in range(2):
+            ops = [['push', k, 'api_new_%d_%d' % (variant, j)] for j, k in enumerate(rng.sample([2, 8, 9, 11, 19], rng.choice([1, 2, 3])))]
+            # sort() only on the hand-written file sets: on generated documents with several MODULEs it also moves A2ML blocks in
+            # front of IF_DATA that were read without them (known finding of C14)
+            hand = (c.get('label') or '').startswith('include comments:')
+            ops.append(rng.choice([['sni'], ['sort']]) if (variant == 0 and hand) else ['sni'])
+            edited.append(dict(c, flat=None, ops=ops, label=(c.get('label') or '') + ' + API edits %s' % [o[0] for o in ops]))
+    cases = cases + edited
     answers = inclib.run_incl(cases, binary=impl)
     inclib.cleanup_tmp()
-    fails, n_ok = [], 0
+    def first_module(n):
+        if not loadlib.is_node(n):
+            return None
+        if n[0] == b'Module':
+            return n
+        for grp in n[3]:
+            for k in grp:
+                m = first_module(k)
+                if m is not None:
+                    return m
+        return None
+
+    fails, n_ok, n_skipped = [], 0, 0
     for c, a in zip(cases, answers):
+        if c.get('ops') and a and a[0] == b'OK':
+            m0 = first_module(a[1])
+            if m0 is None or (len(m0[1]) > 4 and m0[1][4]):
+                n_skipped += 1          # the MODULE that was edited comes from an include file: the edit is not written
+                continue
         probs = [(t, d) for t, d in inclib.problems(c, a) if t in ('reload-text', 'reload-model', 'reload-err', 'panic', 'died')]
         if not probs:
             n_ok += 1
             continue
-        if len(fails) < 2:
+        if [t for t, d in probs] == ['reload-text'] and any(o[0] == 'sort' for o in (c.get('ops') or [])) and len(a[4]) > 4 \
+                and a[3].split() == a[4][4].split():
+            # sort() gives every element a fresh layout; the blank lines in front of an element that lives in an include file cannot be
+            # kept anywhere (the directive is written with them, the include file is not rewritten): same tokens, other line breaks, once
+            if not any(f.get('known_key') for f in fails):
+                fails.append({'known_key': 'sort-with-includes-line-breaks',
+                              'payload': {'kind': 'INCL', 'files': {p_: (t if isinstance(t, str) else (t or b'').decode('utf-8', 'replace')) for p_, t in c['files'].items()},
+                                          'main': c['main'], 'strict': c['strict'], 'flat': c.get('flat'), 'label': c.get('label'), 'case_kind': c['kind'],
+                                          'ops': c.get('ops'), 'why': 'sort() on a document with include files: the first save and the save after a reload differ in line breaks',
+                                          'stage': 'W (save cycle of a document spread over include files)'}})
+            continue
+        if len([f for f in fails if 'payload' in f]) < 2:
             tag, detail = probs[0]
             fails.append({'payload': {'kind': 'INCL', 'files': {p_: (t if isinstance(t, str) else (t or b'').decode('utf-8', 'replace')) for p_, t in c['files'].items()},
                                       'main': c['main'], 'strict': c['strict'], 'flat': c.get('flat'), 'label': c.get('label'), 'case_kind': c['kind'],
+                                      'ops': c.get('ops'),
                                       'why': 'save cycle over include files: %s: %s' % (tag, detail),
                                       'stage': 'W (save cycle of a document spread over include files)'}})
+    v.coverage['include_save_cycles_skipped_edit_in_included_module'] = n_skipped
     v.coverage['include_save_cycles'] = len(cases)
     v.coverage['include_save_cycles_ok'] = n_ok
     return fails
@@ -305,9 +353,10 @@ def replay(r):
         from checks import inclib
         impl = fw.build_harness()
         case = dict(files=r['files'], main=r['main'], strict=r['strict'], flat=r.get('flat'), kind=r.get('case_kind', 'split'),
-                    expect='equal', label=r.get('label'), a2ml=False, names=[])
+                    expect='equal', label=r.get('label'), a2ml=False, names=[], ops=r.get('ops'))
         for p_, t in sorted(r['files'].items()):
             print('--- %s\n%s' % (p_, (t or '')[:1500]))
+        print('edits:', r.get('ops'))
         a = inclib.run_incl([case], binary=impl)[0]
         inclib.cleanup_tmp()
         probs = [(t, d) for t, d in inclib.problems(case, a) if t in ('reload-text', 'reload-model', 'reload-err', 'panic', 'died')]
